@@ -2,12 +2,6 @@
 Require Export Verif.Common.Base Verif.Common.Json.
 Require Export Verif.Model.C12 Verif.Spec.C12.
 
-Definition perr_eqb (a b : perr) : bool :=
-  match a, b with
-  | ENone, ENone | EInvalidStatus, EInvalidStatus | EDecode, EDecode => true
-  | ECode c m e, ECode c' m' e' => (c =? c')%Z && str_eqb m m' && str_eqb e e'
-  | _, _ => false
-  end.
 Definition presp_eqb (a b : presp) : bool :=
   obj_eqb (p_data a) (p_data b) && Bool.eqb (p_complete a) (p_complete b) && (p_status a =? p_status b)%Z.
 Definition pout_eqb (a b : pout) : bool :=
@@ -39,6 +33,8 @@ Inductive case :=
 | CMulti (i : impl) (bs : list (cfgval * cfgval * reply * option obj)) (o : cobs) (raw : string)
 (* proxy level, the backend's RAW extra_config map *)
 | CProxyRaw (extra : obj) (r : reply) (decoded : option obj) (o : pout)
+(* proxy level, backend encoding by name; parsed: independent parse of the body as a JSON value *)
+| CProxyEnc (enc : string) (is_collection : bool) (extra : obj) (r : reply) (parsed : option json) (o : pout)
 (* an endpoint built by the default factory: router, texts of the c.Error entries recorded by
    earlier gin middleware, raw endpoint extra_config, backends b0 :: rest (raw extra_config,
    reply, independent decoding), observed reply and raw body *)
@@ -57,21 +53,6 @@ Definition cobs_match (lax : bool) (m o : cobs) (raw : string) : bool :=
   | BRaw s => lax || str_eqb s raw
   end.
 
-Definition proxy_spec_b (m : mode) (r : reply) (decoded : option obj) (o : pout) : bool :=
-  if ok_status (r_code r) then
-    match decoded, fst o with
-    | Some d, Some p => obj_eqb d (p_data p) && p_complete p && perr_eqb (snd o) ENone
-    | Some _, None => false
-    | None, _ => true
-    end
-  else match m with
-       | MDefault => match o with (None, EInvalidStatus) => true | _ => false end
-       | MErrorCode => match o with (None, ECode c _ _) => (c =? r_code r)%Z | _ => false end
-       | MDetails n => match fst o with
-                       | Some p => negb (p_complete p) && details_ok_b n r (p_data p)
-                       | None => false end
-       end.
-
 Definition check_case (c : case) : bool * bool :=
   match c with
   | CProxy dt cd r d o =>
@@ -87,6 +68,14 @@ Definition check_case (c : case) : bool * bool :=
   | CProxyRaw extra r d o =>
       let m := status_mode_raw extra in
       (pout_eqb (http_proxy_outcome m r d) o, proxy_spec_b m r d o)
+  | CProxyEnc enc coll extra r parsed o =>
+      let m := status_mode_raw extra in
+      let e := enc_of enc coll in
+      (pout_eqb (http_proxy_outcome_enc e m r parsed) o,
+       match e with
+       | EncNoop => true      (* the property does not speak of pass-through backends *)
+       | _ => proxy_spec_b m r (decode_as e (r_body r) parsed) o
+       end)
   | CEndpoint rt prior epx b0 rest o raw =>
       let b0' := backend_of_raw b0 in
       let rest' := map backend_of_raw rest in
